@@ -83,6 +83,22 @@ func c19Case(c *hx.Ctx, r *hx.RNG, idx int64) {
 			if k.op == "FMA" && k.x.Form == oracle.Finite && k.y.Form == oracle.Finite && k.u.Form == oracle.Finite {
 				k.u.Exp = k.x.LeadExp() + k.y.LeadExp() + int64(r.Range(-40, 40)) - oracle.Digits(k.u.Coef)
 			}
+			if k.op == "FMA" && r.Chance(4) {
+				// a finite product beyond the exponent range (known finding D15 lives here: whatever else happens in this
+				// class is not that finding), with an infinite addend
+				le1 := int64(r.Range(900000000, 1300000000))
+				le2 := int64(r.Range(1300000000, 2100000000))
+				if r.Bool() {
+					le1, le2 = -le1, -le2
+				}
+				k.x, k.y = r.Finite(r.Range(1, 30), le1), r.Finite(r.Range(1, 30), le2)
+				// (an infinite addend: the exact sum with a finite one is not materialised here; C02 and C03 hold those)
+				if r.Chance(70) {
+					k.u = oracle.Val{Form: oracle.Inf, Neg: k.x.Neg == k.y.Neg} // opposite to the product's sign
+				} else {
+					k.u = oracle.Val{Form: oracle.Inf, Neg: k.x.Neg != k.y.Neg}
+				}
+			}
 			k.attrs(r)
 			k.p = m.prec // (attrs may pick a precision of its own for the receiver: here the context decides)
 			X := hx.Mk(k.x, opPrec(k.x, k.xp), k.xm)
@@ -191,15 +207,21 @@ func c19Case(c *hx.Ctx, r *hx.RNG, idx int64) {
 					c.Count("injection_site_not_reached", 1) // no rounding happened: an ordinary call
 				}
 				o := k.outcome()
+				if nan, _, ok := fmaKnownOutcome(k); ok && nan && pi == nil {
+					// known finding D15 in a context: the saturated product and the opposite infinity make FMA panic with an
+					// ErrNaN that the context records although x*y+u is an infinity. Looking (Err) is the only way to tell; the
+					// sequence ends here either way.
+					if _, isNaN := cx.Err().(decimal.ErrNaN); isNaN {
+						c.Violate("spurious-ErrNaN", fmt.Sprintf("%s: the context recorded an ErrNaN although the result is an infinity", k.desc(true)), "fma_product_exponent_out_of_range")
+						return
+					}
+				}
 				if pi != nil {
 					if pi.Class == "mk" || pi.Class == "cost" {
 						panic(pi.Val)
 					}
-					kf := ""
-					if fmaProductOutOfRange(k) {
-						kf = "fma_product_exponent_out_of_range"
-					}
-					c.Violate("panic-escaped", fmt.Sprintf("%s: %s panic %q escaped the context; last steps %v", k.desc(true), pi.Class, pi.Text, trace), kf)
+					// (never the known finding D15: there the context records the ErrNaN, nothing escapes)
+					c.Violate("panic-escaped", fmt.Sprintf("%s: %s panic %q escaped the context; last steps %v", k.desc(true), pi.Class, pi.Text, trace), "")
 					return
 				}
 				if ret != z {
@@ -240,11 +262,19 @@ func c19Case(c *hx.Ctx, r *hx.RNG, idx int64) {
 					return
 				}
 				v := k.judge(got)
-				kf := ""
-				if fmaProductOutOfRange(k) {
-					kf = "fma_product_exponent_out_of_range"
-				}
 				if !v.m1Value && v.m2Value != "" {
+					// known finding D15 only if what happened is what the finding describes: the saturated product plus u,
+					// or - where that is Inf - Inf - an ErrNaN recorded by the context (receiver contents undefined)
+					kf := ""
+					if nan, _, ok := fmaKnownOutcome(k); ok {
+						if nan {
+							if _, isNaN := cx.Err().(decimal.ErrNaN); isNaN {
+								kf = "fma_product_exponent_out_of_range"
+							}
+						} else {
+							kf = fmaKnownFinding(k, &got, nil)
+						}
+					}
 					c.Violate("not-rounded-to-context", fmt.Sprintf("%s under context prec=%d mode=%s: stored %s, want %s (%s); receiver before: %s", k.desc(true), m.prec, oracle.ModeNames[m.mode], got.V.Full(), v.exp.V.Full(), v.m2Value, pre), kf)
 					return
 				}
